@@ -91,27 +91,27 @@ type c22Col struct {
 }
 
 type c22Query struct {
-	Cols       []c22Col
-	Meas       []string
-	TLo, THi   int64 // inclusive bounds in ns
-	LoExcl     bool  // rendered as "time > TLo-1"
-	HiIncl     bool  // rendered as "time <= THi"
-	TimeStyle  int   // literal style: 0 integer ns, 1 duration, 2 RFC3339 string
-	Cond       *c22Cond
-	Interval   int64
-	Offset     int64
-	GroupTags  []string
-	GroupStar  bool
-	StarDims   []string // keys the engine expanded GROUP BY * to (validated, see dims)
+	Cols      []c22Col
+	Meas      []string
+	TLo, THi  int64 // inclusive bounds in ns
+	LoExcl    bool  // rendered as "time > TLo-1"
+	HiIncl    bool  // rendered as "time <= THi"
+	TimeStyle int   // literal style: 0 integer ns, 1 duration, 2 RFC3339 string
+	Cond      *c22Cond
+	Interval  int64
+	Offset    int64
+	GroupTags []string
+	GroupStar bool
+	StarDims  []string // keys the engine expanded GROUP BY * to (validated, see dims)
 	// UnorderedSeries: compare the emitted series as a set (C23: the property is about values
 	// and timestamps of the functions, not about the order of output series).
 	UnorderedSeries bool
-	Fill       byte // 0 unspecified, 'n' null, 'x' none, 'p' previous, 'l' linear, '#' number
-	FillNum    int64
-	Desc       bool
-	Limit, Off int
-	SLimit     int
-	SOff       int
+	Fill            byte // 0 unspecified, 'n' null, 'x' none, 'p' previous, 'l' linear, '#' number
+	FillNum         int64
+	Desc            bool
+	Limit, Off      int
+	SLimit          int
+	SOff            int
 }
 
 // ---------------------------------------------------------------------------------------
@@ -224,7 +224,7 @@ func c22CmpNum(a float64, op string, b float64) bool {
 }
 
 // evalCond: a comparison on a field the point does not have is not satisfied (there is no
-// value to compare); a missing tag compares as the empty string (documented: tag = '' selects
+// value to compare); a missing tag compares as the empty string (documented: tag = ” selects
 // series without the tag).
 func (c *c22Cond) eval(tags map[string]string, fields map[string]sk.Val) bool {
 	if c == nil {
@@ -1332,6 +1332,7 @@ func c22EvalMulti(q *c22Query, g *c22Group, exp *c22Expect) *c22ExpSeries {
 			lo, hi int64 // window bounds (inclusive)
 			pts    map[c22OutKey]int
 			want   []float64 // multiset of the n extreme values, sorted
+			wantTX []string  // the n extreme points as "time:value", ties on the value broken towards the earliest time (documented), sorted
 		}
 		var we []wexp
 		for _, w := range wins {
@@ -1340,9 +1341,15 @@ func c22EvalMulti(q *c22Query, g *c22Group, exp *c22Expect) *c22ExpSeries {
 				e.lo, e.hi = q.TLo, q.THi
 			}
 			var xs []float64
+			type tx struct {
+				t int64
+				x float64
+			}
+			var txs []tx
 			for _, pv := range w.In {
 				x, _ := c22Num(pv.V)
 				xs = append(xs, sign*x)
+				txs = append(txs, tx{pv.T, sign * x})
 				e.pts[c22OutKey{pv.T, c22ValCell(pv.V)}]++
 			}
 			sort.Sort(sort.Reverse(sort.Float64Slice(xs)))
@@ -1351,6 +1358,19 @@ func c22EvalMulti(q *c22Query, g *c22Group, exp *c22Expect) *c22ExpSeries {
 			}
 			sort.Float64s(xs)
 			e.want = xs
+			sort.SliceStable(txs, func(i, j int) bool {
+				if txs[i].x != txs[j].x {
+					return txs[i].x > txs[j].x
+				}
+				return txs[i].t < txs[j].t
+			})
+			if len(txs) > c.N {
+				txs = txs[:c.N]
+			}
+			for _, p := range txs {
+				e.wantTX = append(e.wantTX, fmt.Sprintf("%d:%v", p.t, p.x))
+			}
+			sort.Strings(e.wantTX)
 			we = append(we, e)
 		}
 		desc := q.Desc
@@ -1363,6 +1383,7 @@ func c22EvalMulti(q *c22Query, g *c22Group, exp *c22Expect) *c22ExpSeries {
 			}
 			used := map[c22OutKey]int{}
 			perWin := make([][]float64, len(we))
+			perWinTX := make([][]string, len(we))
 			for _, r := range got {
 				if len(r.Cells) != 1 {
 					return "row width"
@@ -1380,6 +1401,7 @@ func c22EvalMulti(q *c22Query, g *c22Group, exp *c22Expect) *c22ExpSeries {
 							x = float64(r.Cells[0].I)
 						}
 						perWin[wi] = append(perWin[wi], sign*x)
+						perWinTX[wi] = append(perWinTX[wi], fmt.Sprintf("%d:%v", r.T, sign*x))
 						found = true
 						break
 					}
@@ -1393,6 +1415,11 @@ func c22EvalMulti(q *c22Query, g *c22Group, exp *c22Expect) *c22ExpSeries {
 				sort.Float64s(xs)
 				if fmt.Sprint(xs) != fmt.Sprint(e.want) {
 					return fmt.Sprintf("window starting %d: values (sign-normalised) %v, want the %d extreme values %v", e.lo, xs, c.N, e.want)
+				}
+				txs := perWinTX[wi]
+				sort.Strings(txs)
+				if fmt.Sprint(txs) != fmt.Sprint(e.wantTX) {
+					return fmt.Sprintf("window starting %d: points (time:sign-normalised value) %v, want %v (a tie on the value goes to the earliest point)", e.lo, txs, e.wantTX)
 				}
 			}
 			return ""
